@@ -63,6 +63,21 @@ func Features(g *d2graph.Graph, op Op) []string {
 			}
 			if r.KeyPathIndex == nonReserved(r.Key)-1 {
 				decl++
+				if nonReserved(r.Key) >= 2 && len(r.Key.Path) == nonReserved(r.Key) {
+					if r.MapKey.Primary.Unbox() != nil || (r.MapKey.Value.Unbox() != nil && r.MapKey.Value.Map == nil) {
+						add(pre + "flat-primary")
+					}
+					if r.MapKey.Value.Map != nil {
+						add(pre + "flat-map")
+					}
+				}
+				if r.MapKey.Value.Map != nil {
+					for _, n := range r.MapKey.Value.Map.Nodes {
+						if n.MapKey != nil && len(n.MapKey.Edges) > 0 {
+							add(pre + "map-has-edge")
+						}
+					}
+				}
 				if r.KeyPathIndex > 0 && len(r.Key.Path) > r.KeyPathIndex+1 {
 					add(pre + "flat-attr")
 				}
@@ -70,6 +85,12 @@ func Features(g *d2graph.Graph, op Op) []string {
 		}
 		if decl >= 2 {
 			add(pre + "multiref")
+		}
+		if decl == 0 {
+			add(pre + "implicit")
+		}
+		if o.ID != o.IDVal {
+			add(pre + "quoted")
 		}
 	}
 	edgeFeat := func(e *d2graph.Edge, pre string) {
@@ -112,6 +133,12 @@ func Features(g *d2graph.Graph, op Op) []string {
 		}
 		return len(d2oracle.GetWriteableRefs(o, bg.BaseAST)) != len(o.References)
 	}
+	localRef := func(o *d2graph.Object) bool {
+		if len(op.Board) == 0 || bg.BaseAST == nil {
+			return false
+		}
+		return len(d2oracle.GetWriteableRefs(o, bg.BaseAST)) > 0
+	}
 	if len(mk.Edges) == 0 && mk.Key != nil {
 		ida := d2graph.Key(mk.Key)
 		// strip a trailing reserved suffix (attribute operations address element.attr)
@@ -128,6 +155,9 @@ func Features(g *d2graph.Graph, op Op) []string {
 			}
 			if inherited(x) {
 				add("x-inherited")
+				if localRef(x) {
+					add("x-inherited-and-local")
+				}
 			}
 			var rec func(o *d2graph.Object)
 			rec = func(o *d2graph.Object) {
@@ -185,6 +215,11 @@ func Features(g *d2graph.Graph, op Op) []string {
 			for _, ch := range x.ChildrenArray {
 				if o, ok := x.Parent.HasChild([]string{ch.ID}); ok && o != x && o != x.Parent {
 					add("child-name-taken-in-parent")
+					for _, ch2 := range x.ChildrenArray {
+						if ch2 != ch && strings.HasPrefix(strings.ToLower(ch2.IDVal), strings.ToLower(ch.IDVal)+" ") {
+							add("clashing-child-has-numbered-sibling")
+						}
+					}
 				}
 			}
 		}
@@ -193,6 +228,8 @@ func Features(g *d2graph.Graph, op Op) []string {
 				d := d2graph.Key(mk2.Key)
 				if len(d) == len(ida) && strings.EqualFold(strings.Join(d[:len(d)-1], "."), strings.Join(ida[:len(ida)-1], ".")) {
 					add("same-scope")
+				} else {
+					add("cross-scope")
 				}
 			}
 			if strings.HasPrefix(strings.ToLower(op.NewKey), strings.ToLower(op.Key)+".") {
@@ -223,8 +260,14 @@ func Features(g *d2graph.Graph, op Op) []string {
 		for _, e := range bg.Edges {
 			if strings.EqualFold(e.AbsID(), base) {
 				edgeFeat(e, "x-")
-				if len(op.Board) > 0 && bg.BaseAST != nil && len(d2oracle.GetWriteableEdgeRefs(e, bg.BaseAST)) != len(e.References) {
-					add("x-inherited")
+				if len(op.Board) > 0 && bg.BaseAST != nil {
+					w := len(d2oracle.GetWriteableEdgeRefs(e, bg.BaseAST))
+					if w != len(e.References) {
+						add("x-inherited")
+						if w > 0 {
+							add("x-inherited-and-local")
+						}
+					}
 				}
 				objFeat(e.Src, "xsrc-")
 				objFeat(e.Dst, "xdst-")
